@@ -245,29 +245,30 @@ func loadSeeds(env *runner.Env) (*seedSet, error) {
 	}
 	addHandBuilt(s)
 	// parse the real parameter sets once (seed maps for the dependent parsers)
+	// (every library call of setup goes through libCall: a panic is recorded as a violation, the unit counts as rejected)
 	for _, sd := range s.kind("avc-sps") {
-		if sps, err := avc.ParseSPSNALUnit(sd.b, true); err == nil && sps != nil {
+		if sps := setupAVCSPS(sd.b); sps != nil {
 			if _, dup := s.avcSPS[sps.ParameterID]; !dup {
 				s.avcSPS[sps.ParameterID] = sps
 			}
 		}
 	}
 	for _, sd := range s.kind("avc-pps") {
-		if pps, err := avc.ParsePPSNALUnit(sd.b, s.avcSPS); err == nil && pps != nil {
+		if pps := setupAVCPPS(sd.b, s.avcSPS); pps != nil {
 			if _, dup := s.avcPPS[pps.PicParameterSetID]; !dup {
 				s.avcPPS[pps.PicParameterSetID] = pps
 			}
 		}
 	}
 	for _, sd := range s.kind("hevc-sps") {
-		if sps, err := hevc.ParseSPSNALUnit(sd.b); err == nil && sps != nil {
+		if sps := setupHEVCSPS(sd.b); sps != nil {
 			if _, dup := s.hevcSPS[uint32(sps.SpsID)]; !dup {
 				s.hevcSPS[uint32(sps.SpsID)] = sps
 			}
 		}
 	}
 	for _, sd := range s.kind("hevc-pps") {
-		if pps, err := hevc.ParsePPSNALUnit(sd.b, s.hevcSPS); err == nil && pps != nil {
+		if pps := setupHEVCPPS(sd.b, s.hevcSPS); pps != nil {
 			if _, dup := s.hevcPPS[pps.PicParameterSetID]; !dup {
 				s.hevcPPS[pps.PicParameterSetID] = pps
 			}
